@@ -59,9 +59,10 @@ PROPS = {
     "C06": {
         "theorems": ["C06_int", "C06_int_sound", "C06_int_signed", "C06_uint_negzero", "C06_null", "C06_string", "C06_time", "C06_bytes",
                      "C06_bool", "C06_mkVal_inj", "C06_rel_absent", "C06_rel_toOne", "C06_rel_toMany", "C06_stored",
-                     "C06_remarshal_toOne", "C06_remarshal_toMany", "C06_known_toOne_empty_id"],
+                     "C06_remarshal_toOne", "C06_remarshal_toMany", "C06_known_toOne_empty_id", "C06_parse_facts", "C06_parse_cases"],
+        "facts": ["unmarshalParse", "unmarshalToTypeCases"],
         "suites": [("literals", 6000, 80000), ("codec", 4000, 50000)],
-        "level_text": "For all ten integer kinds a literal is accepted iff it is an integer literal within the kind's range (and without a minus sign for unsigned kinds), and is stored unchanged (C06_int, against an independent reading Spec.intLit of the literal; exhaustive literal windows for the 8/16-bit kinds in the thorough correspondence tier); null is accepted exactly for nullable attributes and stored as nil (C06_null); strings, times and byte strings are stored exactly as the delegated decoders decode them, byte strings only from JSON strings (C06_string/time/bytes), booleans from true/false (C06_bool); a relationship holds exactly the listed IDs, repeats kept, and every linkage identifier carries the relationship's target type (C06_rel_toOne/toMany); every field absent from the payload reads its zero value and every present one the decoded value (C06_stored); an accepted to-one identifier with a non-empty id and an accepted to-many list re-marshal as exactly the payload's identifiers (C06_remarshal_toOne/toMany). Partial: a to-one identifier whose id is empty or missing is accepted and re-marshals as null (known finding C06-toone-empty-id, pinned by TestUnmarshalPartialResource; refuted from a witness by C06_known_toOne_empty_id). The harness checks each accepted literal against an arbitrary-precision reading (math/big), RFC 3339 and base64 decoded independently, re-marshals every accepted resource and compares id, type, the payload's attributes and linkage with the payload as JSON values, and runs a quarter of the payloads through partial unmarshaling as well.",
+        "level_text": "For all ten integer kinds a literal is accepted iff it is an integer literal within the kind's range (and without a minus sign for unsigned kinds), and is stored unchanged (C06_int, against an independent reading Spec.intLit of the literal; exhaustive literal windows for the 8/16-bit kinds in the thorough correspondence tier); null is accepted exactly for nullable attributes and stored as nil (C06_null); strings, times and byte strings are stored exactly as the delegated decoders decode them, byte strings only from JSON strings (C06_string/time/bytes), booleans from true/false (C06_bool); a relationship holds exactly the listed IDs, repeats kept, and every linkage identifier carries the relationship's target type (C06_rel_toOne/toMany); every field absent from the payload reads its zero value and every present one the decoded value (C06_stored); the parser called for each kind, its bit size and the narrowing conversion are read from the current source of Attr.unmarshalToType (T1 fact unmarshalParse) and are the ones the model assumes, all fourteen kinds (C06_parse_facts, C06_parse_cases); an accepted to-one identifier with a non-empty id and an accepted to-many list re-marshal as exactly the payload's identifiers (C06_remarshal_toOne/toMany). Partial: a to-one identifier whose id is empty or missing is accepted and re-marshals as null (known finding C06-toone-empty-id, pinned by TestUnmarshalPartialResource; refuted from a witness by C06_known_toOne_empty_id). The harness checks each accepted literal against an arbitrary-precision reading (math/big), RFC 3339 and base64 decoded independently, re-marshals every accepted resource and compares id, type, the payload's attributes and linkage with the payload as JSON values, and runs a quarter of the payloads through partial unmarshaling as well.",
         "level_note": "Trusted: Lean kernel; standard axioms; delegated decoders of encoding/json for string / time.Time / []byte / Identifier (the theorems hold for every result they can return; C06 says the library stores exactly that result); strconv modelled. Note: '-0' is rejected for unsigned kinds (strconv.ParseUint), consistent with 'accepted only if' (C06_uint_negzero).",
         "assumptions": [],
     },
